@@ -5,6 +5,18 @@ ROOT = os.path.dirname(os.path.dirname(os.path.abspath(__file__)))
 props = [json.loads(l) for l in open(os.path.join(ROOT, "properties.jsonl"))]
 
 CHECKS = {
+ "C09": dict(engine="frontend", design="5 C09, 3.5",
+   technique="TLC model checking of Driver.tla over the LALR(1) tables of the grammar of record (MC_Frontend, all parser configurations within MAXLEN tokens) + TLC TablesMatch judgement of the tables extracted from the checked-in parser.rs + replay of every configuration's witness, rendered to source text, on the real generate + TLC-judged longer random files (DriverJudge)",
+   text="The published Kiki grammar is a TLA+ value (KikiSyntax.tla). TLC computes its canonical LR(1) collection (87 states) and LALR(1) automaton (67), judges the ACTION/GOTO tables extracted from kiki/src/parser.rs to be exactly those tables up to renumbering, and explores every parser configuration reachable within 22 (quick) / 30 (thorough) tokens x every next token kind. Each configuration's shortest witness is rendered to text with seeded lexemes and layout (multi-byte comments, CRLF, Unicode spaces) and run through the real generate: accept => no Lex/Parse error; error at token i => Parse(start_i, text_i, end_i) exactly; early end => Parse(len, \"\", len).",
+   note="Trusted: TLC; the lexeme/layout rendering (a Lex error on rendered text is itself reported); table extraction from parser.rs is structural. The grammar of record is compared with what kiki extracts from parser.kiki on every run (drift is reported, not decisive)."),
+ "C15": dict(engine="header", design="5 C15, 3.7",
+   technique="TLC model checking of Header.tla (line-by-line scan == declarative RefHash on all texts of <=4/5 lines over 11 line classes) and Freshness.tla (build-script protocol) + replay of every explored text on the real get_grammar_hash + independent SHA-256 of real emitted headers",
+   text="MC_Header shows the scan of get_grammar_hash equals the declarative definition (remainder of the first prefix line inside the maximal leading // block) on every text over line classes that distinguish everything the scan can observe (hash line, doubled prefix, empty remainder, ///, missing space, indentation, empty line, code); every explored text is rendered with seeded LF/CRLF/missing final terminator and given to the real function. For accepted grammars (repository files + seeded random ones with CRLF, no trailing newline, multi-byte comments) get_grammar_hash(generate(src)) must equal python hashlib's SHA-256 of the exact bytes, the line must sit in the leading // block, and a one-byte variation must be judged stale. Freshness.tla model-checks the build-script protocol under an injective digest.",
+   note="Trusted: TLC; python hashlib; SHA-256 collision resistance (Digest injective)."),
+ "C18": dict(engine="oset", design="5 C18, 3.1",
+   technique="TLC model checking of Oset.tla under four element orders + replay of EVERY explored transition on real kiki::Oset values + TLC trace validation of long random histories (OsetTrace) + Apalache inductive invariant over unbounded integers (OsetInd)",
+   text="MC_Oset explores two ordered sets over 4 elements under every argument sequence (duplicates, any order) of length <=2/3 for from_iter/insert/extend and checks strict ascent, set denotation, membership by binary search, equality and lexicographic ordering by element set (SetCmp defined on the sets alone). Every transition (about 94 000 in the quick tier, for i64, a reversed Ord, a parity-first Ord and kiki's StateItem) is replayed through the public API only, comparing Deref contents, both IntoIterator impls, len, contains for every element, ==, cmp, partial_cmp and hash equality. Seeded random histories of 200-1000 operations over 16 elements are validated by TLC step by step.",
+   note="Trusted: TLC, Apalache (design-level strengthening only), the id<->element tables of the harness."),
  "C01": dict(engine="emitted", design="5 C01, 3.3, 3.4",
    technique="TLC model checking of Driver.tla (emitted shift/reduce loop with environment-supplied input) against the parser-free language definition Cfg.tla + replay of every explored run on real emitted parsers compiled with rustc + TLC-judged long inputs (DriverJudge)",
    text="MC_Driver explores, for every selected grammar (29 classics + a seeded sample of the 12 383-grammar universe) and every input of up to n tokens the environment can supply, the emitted parse loop over the LALR(1) tables and checks acceptance iff Cfg!IsSentence (a CYK-style least fixed point with no automaton), stack discipline and (liveness) termination. Each finished run is a prediction; the same grammars are pushed through the real generate, the emitted Rust is compiled (payload types without any derive) and run on ALL strings up to n tokens, twice with different payloads; results must equal the predictions. Larger random grammars with inputs up to 40 tokens are judged by TLC.",
